@@ -386,6 +386,7 @@ Pending == {dc \in Threads : th[dc[1]][dc[2]].stop}
 
 (* time passes when no thread is due; a request is not left unanswered for more than MaxLat ticks *)
 Tick ==
+    /\ mpc.at # "build"                  \* the clock (and the metrics store's relative time) starts when the devices are built
     /\ \A dc \in Threads : LET t == th[dc[1]][dc[2]]
                            IN /\ t.pc = "sleep" => t.wake > now
                               /\ t.pc = "rec" => now - Last(t.calls) < MaxLat
@@ -498,6 +499,9 @@ StopJoinsAll == \A d \in 1..N : (IsSampler(d) /\ StoppedOk(d)) => \A c \in Clust
 (* a thread ends only because it was told to stop or because record() raised *)
 EndsOnlyWhenStopped == \A dc \in AllDC : Th(dc).pc = "done" => (Th(dc).stop \/ Th(dc).crashed)
 CrashOnlyOnError == \A dc \in AllDC : LET t == Th(dc) IN t.crashed => (t.ans # <<>> /\ Last(t.ans).a < 0)
+(* node-stats logs a connection error and carries on *)
+NodeStatsSurvivesTransportError ==
+    \A dc \in AllDC : LET t == Th(dc) IN (t.crashed /\ DV(dc[1]).kind = "nodestats") => (t.ans # <<>> /\ Last(t.ans).a # TErr)
 (* intended (SamplerSurvivesError) *)
 SamplerSurvives == \A dc \in AllDC : ~Th(dc).crashed
 
@@ -514,7 +518,7 @@ SamplesStored ==
     \A dc \in AllDC : IsSampler(dc[1]) =>
         SelectSeq(store, LAMBDA x : x.d = dc[1] /\ x.c = dc[2] /\ ~IsFinal(x)) = ExpectedSamples(dc[1], dc[2], Len(Th(dc).ans))
 (* intended (DocMetaAlways): the documented meta data is on every sample *)
-SampleMeta == \A i \in 1..Len(store) : (IsSampler(store[i].d) /\ ~IsFinal(store[i])) => ("cluster=" \o CName(store[i].c)) \in store[i].md
+SampleMeta == \A i \in 1..Len(store) : DV(store[i].d).kind \in {"ccr", "recovery", "nodestats"} => ("cluster=" \o CName(store[i].c)) \in store[i].md
 (* samples carry the user's / environment's cluster-level meta info *)
 BaseMeta == \A i \in 1..Len(store) : (store[i].md # {} \/ DocMetaAlways) => Base \subseteq store[i].md
 
